@@ -654,7 +654,7 @@ func (s Subtitles) WriteToTTML(o io.Writer, opts ...WriteToTTMLOption) (err erro
 	}
 
 	// Do not write anything if no subtitles
-	if len(s.Items) == 0 {
+	if s.Items = nonNilItems(s.Items); len(s.Items) == 0 {
 		return ErrNoSubtitlesToWrite
 	}
 
